@@ -20,7 +20,7 @@ func init() {
 			return evid.Spec{ID: "C06", Level: "model_checking", Exhaustive: true,
 				Rule: "plane 1: every flag octet x every odd sequence number for one (type, minor, session); plane 2: type{1,2,3} x minor{0,1} x 6 session ids x flags{0,1,4,5,0xfe,0xff} x seq{1,3,127,253,255}; " +
 					"each crossed with reply bodies {authentication minimal, RESTART, 300 B, authorization with arguments, accounting, 65536-byte body}; plane 3: multi-packet chains of depth <= 3 " +
-					"(seq s, s+2, s+4 via registered continuations, s in {1,3,249,251,253}) over type x minor x flags{0,1,4,0xff}; plane 5: typed replies sweeping every value of their leading octets (accounting server_msg/data lengths 256k+3, k, authorization argument counts 0..255, every authentication status x sizes); plane 6: three requests on one connection (a continued session and another session) over all triples of flag octets {0,4,1,5,0xfa}. Raw reply octets are compared with the model: same version octet, type, flag octet, " +
+					"(seq s, s+2, s+4 via registered continuations, s in {1,3,249,251,253}) over type x minor x flags{0,1,4,0xff}; plane 5: typed replies sweeping every value of their leading octets (accounting server_msg/data lengths 256k+3, k, authorization argument counts 0..255, every authentication status x sizes); plane 7: handlers whose first one or two replies cannot be encoded (nothing written) and that fall back to another reply, alone and inside continued exchanges, type x minor x flags{0,1,4} x seq{1,3,251,253,255}; plane 6: three requests on one connection (a continued session and another session) over all triples of flag octets {0,4,1,5,0xfa}. Raw reply octets are compared with the model: same version octet, type, flag octet, " +
 					"session id, seq+1 (1 on RESTART), length field == bytes that follow, body == cleartext XOR reference pad iff the request's unencrypted bit was clear, nothing for request 255, never seq 0. " +
 					"states = distinct (request header class, reply kind) model states; transitions = requests executed; traces = chains fully agreed",
 				Assumptions: []string{"handlers are scripted (library flavour); the reference server's own handlers are covered by C07"}}
@@ -35,6 +35,8 @@ type c06Event struct {
 	H     ref.Header `json:"h"`
 	Reply string     `json:"reply"` // min, restart, 300, author, acct, max
 	Next  bool       `json:"next"`
+	// Fallback: the handler first tries this many replies that cannot be encoded, then sends Reply
+	Fallback int `json:"fallback,omitempty"`
 }
 
 func c06Body(kind string) tq.EncoderDecoder {
@@ -90,14 +92,21 @@ func c06Chain(c *Ctx, w *lworld, chain []c06Event) {
 	c.R.Eval()
 	c.Cur(chain)
 	for i, e := range chain {
-		act := lAction{Action: ref.Action{Reply: true, Restart: e.Reply == "restart" || strings.HasPrefix(e.Reply, "authen:6:"), Next: e.Next}, Body: c06Body(e.Reply)}
+		act := lAction{Action: ref.Action{Reply: true, Restart: e.Reply == "restart" || strings.HasPrefix(e.Reply, "authen:6:"), Next: e.Next}, Body: c06Body(e.Reply), FailFirst: e.Fallback}
 		v := lc.M.Step(e.H, act.Action)
 		r, err := w.deliver(lc, ref.Packet(e.H, w.Key, minimalRequest(e.H.Type)), act)
 		if err != nil {
 			c.Abort("hang", fmt.Sprintf("%v on %+v", err, e), chain[:i+1])
 		}
 		c.R.Trans(1)
-		c.R.State(evid.Hash(e.H.Type, e.H.Version, e.H.Flags&1, e.H.Seq == 255, e.Reply, e.Next, i))
+		w.mu.Lock()
+		unjudged := w.unjudged
+		w.mu.Unlock()
+		if unjudged {
+			c.R.Count("steps_not_judged_unencodable_body_was_encoded", 1)
+			return
+		}
+		c.R.State(evid.Hash(e.H.Type, e.H.Version, e.H.Flags&1, e.H.Seq == 255, e.Reply, e.Next, i, e.Fallback))
 		if m := compareStep(lc, w.Key, e.H, act, v, r); m != "" {
 			key := digits.ReplaceAllString(strings.SplitN(m, "{", 2)[0], "#")
 			c.R.ViolateMin(key+"/"+e.Reply, fmt.Sprintf("request %+v reply=%s next=%v (step %d of chain): %s", e.H, e.Reply, e.Next, i, m), chain[:i+1], i+1)
@@ -241,6 +250,33 @@ func c06Run(c *Ctx) {
 						h3 := ref.Header{Version: 0xc1, Type: typ, Seq: 1, Flags: f3, Session: 0x6002}
 						emit([]c06Event{{H: h1, Reply: "min", Next: true}, {H: h2, Reply: "300"}, {H: h3, Reply: "min"}})
 						emit([]c06Event{{H: h3, Reply: "min"}, {H: h1, Reply: "min", Next: true}, {H: h2, Reply: "min"}})
+					}
+				}
+			}
+		}
+	}
+	// plane 7: the handler's first reply (or first two) cannot be encoded - nothing is written for it - and it falls back to
+	// another one, as the reference authorizer does: the fallback is THE reply and mirrors the request like any other,
+	// also when the exchange continues
+	for _, typ := range []byte{1, 2, 3} {
+		for _, fb := range []int{1, 2} {
+			job++
+			if !c.Mine(job) {
+				continue
+			}
+			for _, ver := range []byte{0xc0, 0xc1} {
+				for _, fl := range []byte{0, 1, 4} {
+					for _, s := range []int{1, 3, 251, 253, 255} {
+						for _, rp := range replies[:5] {
+							h := ref.Header{Version: ver, Type: typ, Seq: byte(s), Flags: fl, Session: 0x7a11bac}
+							emit([]c06Event{{H: h, Reply: rp, Fallback: fb}})
+							if rp != "restart" && s+2 <= 255 {
+								h2 := h
+								h2.Seq = byte(s + 2)
+								emit([]c06Event{{H: h, Reply: rp, Next: true, Fallback: fb}, {H: h2, Reply: "min"}})
+								emit([]c06Event{{H: h, Reply: rp, Next: true}, {H: h2, Reply: "min", Fallback: fb}})
+							}
+						}
 					}
 				}
 			}
